@@ -29,6 +29,9 @@ def plan(tier, seed):
     for d in dates:
         for ti, t in enumerate(TEMPLATES):
             items.append(dict(kind="sweep", date=str(d), template=t, k=ti, seed=seed))
+        for vi in range(1, 4):  # further draws of the family shapes around which the priority checks bind, moderate rents
+            for t in ("single_parent", "family_m", "big_family"):
+                items.append(dict(kind="sweep", date=str(d), template=t, k=100 * vi + TEMPLATES.index(t), seed=seed, rent=[350.0, 400.0, 450.0][vi - 1]))
         for k in range(3):
             items.append(dict(kind="random", date=str(d), k=k, seed=seed))
         items.append(dict(kind="pensioners", date=str(d), k=50, seed=seed))
@@ -125,9 +128,9 @@ def run_item(item):
         adults = np.where((base["alter"] >= 18) & ~base["rentner"])[0]
         who = int(adults[0]) if len(adults) else 0
         base["vermögen_bedürft"] = np.minimum(base["vermögen_bedürft"], 3000.0)
-        base["bruttokaltmiete_m_hh"] = float(rng.choice([350.0, 600.0, 900.0]))
+        base["bruttokaltmiete_m_hh"] = float(item.get("rent") or rng.choice([350.0, 600.0, 900.0]))
         base["eink_vermietung_m"] = 0.0
-        wages = np.arange(0, 6001, 50, dtype=float)
+        wages = np.arange(0, 6001, 50, dtype=float) if not item.get("rent") else np.arange(0, 3001, 20, dtype=float)
         df = popgen.replicate_with_wages(base, wages, who=who)
         T, nodes, roots, dag, fn = env.trace(df, params, functions)
         res["runs"] += 1
